@@ -72,13 +72,13 @@ theorem close_zero_self (a : Rat) : close 0 a a = true := by
 theorem linearFieldOk_of_blend {vals : List Val} {w : List Rat} {v : Val}
     (h : linearBlend vals w = .ok v) (hl : w.length = vals.length) :
     linearFieldOk w 0 vals v = true := by
-  obtain ⟨rows, hrows, rfl, hlen, hget⟩ := Blend.linear_value_core h
+  obtain ⟨rows, hrows, rfl, hlen, hrl, hget⟩ := Blend.linear_value_core h
   unfold linearFieldOk
   rw [mapM_samples_of_rowOf hrows]
   have hS : rows.foldl (fun m r => max m r.length) 0 = maxLen rows := rfl
   simp only [hS, beq_self_eq_true, Bool.true_and, Bool.and_eq_true, beq_iff_eq, List.all_eq_true,
     List.mem_range]
-  refine ⟨⟨hlen, by rw [hl, mapE_ok_length hrows]⟩, ?_⟩
+  refine ⟨⟨⟨hlen, by rw [hl, mapE_ok_length hrows]⟩, fun r hr => by simpa using hrl r hr⟩, ?_⟩
   intro s hs
   have hs' : s < (linearOut rows w (maxLen rows)).length := by rw [hlen]; exact hs
   rw [List.getD_eq_getElem?_getD, List.getElem?_eq_getElem hs', Option.getD_some, hget s hs',
